@@ -1,5 +1,6 @@
 SPECIFICATION Spec
 CONSTANTS
+  PairMode = "std"
   Universe <- UniverseIndepQuick
   FormatsUsed <- AllFormats
   Origin = "indep"
